@@ -47,31 +47,58 @@ class C26(Prop):
         text="Coq theorems over a Gallina model of recordstore.Path.Encode (the ten sequential ReplaceAll passes) and "
              "Path.Decode (leftmost-first backtracking match of the anchored pattern the code builds: lazy (.*?) for %path, "
              "fixed-width digit groups, Z|+dddd|-dddd; last group of a placeholder wins; time.Date / time.Unix via a proved "
-             "proleptic-Gregorian calendar): for every well-formed format, every path name without newline/'%' and every "
-             "instant the fixed-width fields can hold, Decode(Encode) returns that path and that start to the microsecond; "
-             "every recognised name is as a whole the format's literals with well-shaped fields in between (no foreign "
-             "prefix/suffix/infix). The model is tied to the code by running the real Encode/Decode on generated formats, "
-             "names, instants, zones and mutated candidate names and comparing inside Coq.",
-        note="Found and fixed: the pattern was compiled without anchors (fix 2b44fe1). Known findings kept: Decode accepts "
-             "fields Encode never writes (month 13, +0000, disagreeing duplicates); formats with several %path or a stray '%' "
-             "do not round-trip. Trusted: Coq kernel+VM, the driver, Go regexp implementing leftmost-first semantics for the "
-             "generated pattern (checked on every case), the zone offsets Go computes (shipped per case). ASCII formats only.",
+             "proleptic-Gregorian calendar; the final `Encode(format) == v` comparison) with the local zone as the two "
+             "functions the code uses (offset time.Date subtracts for a wall-clock reading; offset in force at an instant), "
+             "instantiated by fixed offsets and by zone-database tables with Location.lookup and time.Date's resolution "
+             "rule transliterated from the Go source: for every well-formed format, path name without newline/'%' and "
+             "instant the fixed-width fields can hold, Decode(Encode) returns that path and that start to the microsecond "
+             "- with %z or %s always; without them exactly when time.Date maps the instant's reading back to its offset, "
+             "which in every zone with offsets within B of UTC and changes more than 2B apart is every instant outside the "
+             "repeated hours (proved), while inside one two instants share one file name and Decode reports the one the "
+             "proved pick rule selects (refuted with Europe/Rome and America/New_York 2024; known finding, data loss in the "
+             "recorder replayed); every name the recorder writes is still recognised with the right path; and a name is "
+             "recognised ONLY if it is what Encode writes for the decoded path and start (full strength, all zones and "
+             "formats). The model is tied to the code by running the real Encode/Decode on generated formats, names, "
+             "instants, fixed and 12 real zones (around every offset change of 2019-2031 +-2 h at 1-minute steps, gap "
+             "readings, mutated names) and comparing inside Coq.",
+        note="Found and fixed: the pattern was compiled without anchors (fix 2b44fe1); Decode accepted fields Encode never "
+             "writes - month 13, +0000, disagreeing duplicates, gap readings (fix: re-encode comparison). Known findings "
+             "kept: the repeated hour at the end of DST (two instants, one name; the recorder truncates the earlier file); "
+             "formats with several %path or a stray '%' do not round-trip. Trusted: Coq kernel+VM, the driver, Go regexp "
+             "implementing leftmost-first semantics for the generated pattern (checked on every case), Go's zone data as "
+             "reported by Time.Zone / ZoneBounds (shipped as tables, validated against the offset function by a scan and "
+             "against zone_ok in Coq). ASCII formats only. The recorder is assumed to hold segment starts in time.Local "
+             "(a source that delivers absolute times in another Location, e.g. HLS EXT-X-PROGRAM-DATE-TIME in UTC, would "
+             "have its civil fields written in that Location and read back as local: outside the theorems' hypothesis).",
         technique="Coq proof (induction over the token list; length/last-byte argument for the lazy group; 400-year calendar "
-                  "cycle swept by vm_compute and lifted by forallb_forall) + correspondence by vm_compute")
+                  "cycle swept by vm_compute and lifted by forallb_forall; zone part: abstract section over any lookup "
+                  "function that partitions the time line into periods longer than 2B, case analysis on where the "
+                  "reading taken as UTC falls, instantiated for sorted transition tables) + correspondence by vm_compute")
     rule = ("formats from a grammar over the ten placeholders and literal separators (realistic, time-before-path, random "
             "token soup incl. regex metacharacters and stray '%', degenerate ones); names valid, look-alike (embedded "
             "timestamps) and invalid; instants 2000-2041, boundaries (10^9, 10^10, years 999/1000/9999/10000, negative), "
-            "DST changes; fixed local zones (nice and odd offsets) and five real zones (applied offset shipped); candidates = "
-            "encodings and their suffix/prefix/infix/delete/replace/double/truncate/field mutations and random strings. "
-            "Non-trivial = recognised; distinct = distinct (input, output) descriptions")
+            "DST changes; fixed local zones (nice and odd offsets); 12 real zones (Rome, New_York, London, St_Johns, Lord_Howe, "
+            "Azores, Apia, Casablanca, Sao_Paulo, Kathmandu, Chatham, Cairo) with the table of offset changes shipped: round "
+            "trips at instants 75% within 3 h of a change (zround), candidate names that read the UTC fields locally (gap "
+            "readings) and structural mutations (zdec), one sweep per offset change of 2019-2031 (thorough 2000-2037): +-2 h "
+            "at 60 s (20 s) steps, run-length encoded (zsweep), one scan of Go's offset function per zone every 6 h (1 h) "
+            "(zscan); candidates = encodings and their suffix/prefix/infix/delete/replace/double/truncate/field mutations "
+            "and random strings. Non-trivial = recognised; distinct = distinct (input, output) descriptions")
     trusted_base = ["Coq 8.16.1 kernel + VM (vm_compute for cases and the two calendar sweeps)",
                     "in-package Go driver zz_verif_c26_test.go",
-                    "model Model/C26_RecPath.v hand-written, tied by correspondence (0 mismatches required)",
-                    "oracle: offset time.Date applied in a real zone (shipped per case); Go regexp = leftmost-first match",
-                    "known_class: Python re.fullmatch as independent whole-name check before a finding is accepted as known"]
+                    "models Model/C26_RecPath.v, Model/C26_Zone.v hand-written (time.Date transliterated from go1.26 src/time/time.go), "
+                    "tied by correspondence (0 mismatches required)",
+                    "oracle: Go's zone data through Time.Zone / Time.ZoneBounds (table of offset changes shipped per case; every "
+                    "sampled offset, every time.Date result and 'is the reading repeated' compared with the model); "
+                    "Go regexp = leftmost-first match",
+                    "known_class: the dst-repeated-hour class is accepted only when Go's own offset function says the reading is "
+                    "repeated, the format has no %z/%s and the decoded start re-encodes to the same name"]
     assumptions = ["formats are ASCII (bytes >= 0x80 in a format are not modelled: regexp works on runes)",
                    "time.Time nanoseconds are in 0..999999999",
-                   "theorems need wf_format: every '%' starts a placeholder, %path exactly once, at most one %z after %path"]
+                   "theorems need wf_format: every '%' starts a placeholder, %path exactly once, at most one %z after %path",
+                   "zone theorems need zone_ok B: |offset| <= B and successive offset changes more than 2B apart "
+                   "(checked in Coq for every shipped table with B = 16 h)",
+                   "segment starts are held in time.Local (Encode formats p.Start in its own Location)"]
 
     def known_class(self, case, entries):
         d = case.get("desc", {}) or {}
@@ -79,8 +106,12 @@ class C26(Prop):
             if e.get("class") != case.get("class"):
                 continue
             try:
-                if e["class"] == "dec-recognised-not-reencodable" and d.get("kind") == "decode" \
-                        and whole_name(d["format"], d["candidate"]):
+                if e["class"] == "dst-repeated-hour" and d.get("kind") == "zround" and d.get("repeated") is True \
+                        and "%z" not in tokenize(d["format"]) and "%s" not in tokenize(d["format"]) \
+                        and isinstance(d.get("decoded"), dict) and d["decoded"]["path"] == d["path"] \
+                        and 0 < abs(d["decoded"]["unix"] - d["unix"]) <= 2 * 57600 \
+                        and d["decoded"]["reencoded"] == d["encoded"]:
+                    # the other instant of the repeated hour, same file name; anything else is still a violation
                     return e
                 if e["class"] == "degenerate-format" and d.get("kind") == "roundtrip" and degenerate(d["format"]):
                     return e
